@@ -21,7 +21,7 @@ SPEC = {
                    "PyMatterSim.static.boo:boo_2d.spatial_corr", "PyMatterSim.static.boo:boo_2d.time_corr"],
     "floors": {"psi": 2000, "modulus_bound": 2000, "lattice_modulus_one": 60, "rotation_covariance": 300, "time_average": 100,
                "time_average_index": 30, "spatial_corr": 30, "time_corr": 100, "signed_weight_cases": 15,
-               "particle_without_neighbours_in_one_frame": 5, "time_average_with_an_undefined_frame": 2},
+               "particle_without_neighbours_in_one_frame": 5, "cells_with_the_tilt_above_the_diagonal": 5, "time_average_with_an_undefined_frame": 2},
     "rule": ("2D configurations x neighbour definitions {repository N-nearest, cut-off, freud Voronoi with edge-length weights, own "
              "ragged files with own signed weights} x l 1..12 x {orthogonal, triclinic} x masks x 1..6 frames x averaging windows; "
              "perfect hexagonal / square / honeycomb lattices; rotated open clusters; non-trivial = every particle has >= 1 neighbour; "
@@ -98,6 +98,14 @@ def case_random(ctx, rng, wd):
     if bigsys:
         N = int(rng.choice([130, 260, 520]))          # beyond the usual size (block-wise evaluation boundaries)
     cell = gc.make_cell(rng, 2, cellkind, lmin=5 * (N / 40.0) ** 0.5 if bigsys else 5, lmax=9 * (N / 40.0) ** 0.5 if bigsys else 9)
+    upper = False
+    if cellkind == "tri" and rng.random() < 0.3:
+        # the same kind of cell with its tilt ABOVE the diagonal (cell vectors (lx, b) and (0, ly): the primitive cell of a triangular
+        # lattice): a cell matrix like any other
+        cell = dict(cell)
+        cell["H"] = cell["H"].T.copy()
+        upper = True
+        ctx.count("cells_with_the_tilt_above_the_diagonal")
     f0 = gc.make_frac(rng, 2, N, str(rng.choice(["gas", "lattice", "hardcore"])))
     N = len(f0)
     step = int(rng.choice([1, 100]))
@@ -106,7 +114,7 @@ def case_random(ctx, rng, wd):
     if uneven and len(set(np.diff(ts).tolist())) == 1:
         ts[-1] += step
     # sheared trajectories (equal edge lengths, an own tilt per frame): every frame has its own cell matrix
-    shear = cellkind == "tri" and T > 1 and rng.random() < 0.5
+    shear = cellkind == "tri" and T > 1 and not upper and rng.random() < 0.5
     cells = [cell] + [gc.retilt(rng, cell) if shear else cell for _ in range(T - 1)]
     snaps = gc.snapshots_from([gc.snapshot_from(cells[t], (f0 + (rng.normal(0, 0.03, f0.shape) if t else 0)) % 1.0, np.ones(N, dtype=int), int(ts[t])) for t in range(T)])
     H = cell["H"]
